@@ -51,6 +51,9 @@ class LawfulFloatLike (F : Type) [FloatLike F] : Prop where
   the disjunct only keeps the law uniform) -/
   add_ge_left : ∀ x y : F, le (zero : F) x = true → le (zero : F) y = true →
       isNaN (add x y) = true ∨ le x (add x y) = true
+  /-- `int64(x)` of a NaN or a non-negative value is non-negative, or it is the out-of-range indicator -2^63
+  (amd64 CVTTSD2SQ) -/
+  toInt64_nn : ∀ x : F, NN x → 0 ≤ toInt64 x ∨ toInt64 x = -9223372036854775808
   /-- negation is exact: for finite a, b the differences a - b and b - a have the same square -/
   sub_sq_comm : ∀ a b : F, finite a = true → finite b = true →
       mul (sub a b) (sub a b) = mul (sub b a) (sub b a)
